@@ -75,3 +75,24 @@ Proof.
   rewrite E. unfold judge.
   destruct (_ && _); cbn; auto.
 Qed.
+
+(** A permission set grants exactly the union of what its members grant: access is
+    monotone in the set and no combination of permissions grants more than one of them does. *)
+Lemma allowed_app ps ps' q : allowed (ps ++ ps') q = allowed ps q || allowed ps' q.
+Proof. unfold allowed. apply existsb_app. Qed.
+
+Lemma allowed_monotone ps ps' q :
+  (forall p, In p ps -> In p ps') -> allowed ps q = true -> allowed ps' q = true.
+Proof.
+  intros Hsub H. apply allowed_iff in H as [p [Hin Hg]].
+  apply allowed_iff. exists p. split; [apply Hsub, Hin | exact Hg].
+Qed.
+
+Lemma allowed_nil q : allowed [] q = false.
+Proof. reflexivity. Qed.
+
+(** A grant never depends on the requesting side's spelling beyond the four fields the
+    property names: a permission that matches a request with a resource id also matches
+    nothing of another action, whatever the resource. *)
+Lemma matches_same_action p q : matchesV1 p q = true -> act p = act q.
+Proof. intro H. apply matches_iff in H as [Ha _]. exact Ha. Qed.
